@@ -11,9 +11,9 @@ ASSUMPTIONS = [
     'with three or more non-dyadic weights the last bit of vtime could depend on the hash-table order, which is outside the model',
     'which of several items with an equal (stamp, arrival instant) key heapq returns is not modelled: the hand-off action carries the packet the implementation '
     'chose and the model verifies that its key is minimal (DESIGN section 3: such packets may leave in either order)',
-    'model and theorems follow the code: the scheduler "empties" in its bookkeeping burst after a transmission (the loop resuming from the send '
-    'process). An arrival in the same instant between out.put() of the last packet and that burst meets an observably empty scheduler but is stamped '
-    'from the old virtual time: the direct oracle reports this with signature wfq-empty-race (known finding, findings/demos/C14_wfq_busy_period_race.py)',
+    'WFQ: an arrival finds the scheduler empty when no packet is waiting or in transmission (total_packets == 0), also in the instant in which the last '
+    'transmission ended and the loop has not yet resumed; the virtual clock advances at service-end bursts with the classes that were in the scheduler '
+    'during the elapsed interval (the packet that has just left included)',
     'the scheduler loop on the real kernel refines the StampServer LTS: checked by replay (labels from Process.target / StoreGet.triggered), not proved',
     'the static-backlog fairness oracle is evaluated in exact rationals (weights and sizes are exact); no tolerance is needed because the proved bound '
     'has a slack of one maximum packet, rounding of the stamps can only reorder two packets whose exact stamps differ by a few ulps',
@@ -103,6 +103,9 @@ def run(ctx, prop='C14', n_quick=3000, n_thorough=50000):
         hist['equal-stamp pairs at a decision'] += st['ties']
         hist['equal-stamp-and-instant pairs at a decision'] += st['full_ties']
         hist['fairness pairs checked'] += st['fair_pairs']
+        ev3 = [e for e in r.hist if e[0] in ('arr', 'dep', 'done')]
+        hist['arrivals to an empty scheduler before the loop booked the last packet out'] += sum(
+            1 for i, e in enumerate(ev3) if e[0] == 'arr' and i > 0 and ev3[i - 1][0] == 'dep' and sum(n for n, _ in e[5].values()) == 1)
         resets = sum(1 for e in r.hist if e[0] == 'done' and e[2].get('active') == [])
         hist['busy periods ended (vtime reset)'] += resets
         multi = any(e[0] == 'choose' and len({x.flow_id for x in e[3]}) > 1 for e in r.hist)
@@ -115,7 +118,7 @@ def run(ctx, prop='C14', n_quick=3000, n_thorough=50000):
             samples.append({'config': {k: v for k, v in c.items() if k != 'sources'}, 'sources': c['sources'], 'actions': r.acts[:40]})
     cov = {'evaluations': len(cases), 'distinct_nontrivial': nontriv,
            'rule': 'seeded WFQ / VirtualClock configurations (weight / vtick tables, identity and many-to-one class maps) x arrival workloads '
-                   '(random, static backlog, deliberately equal stamps, idle periods, arrivals at transmission ends, unconfigured flow); '
+                   '(random, static backlog, deliberately equal stamps, idle periods, arrivals at transmission ends and at the very end of a busy period, unconfigured flow); '
                    'non-trivial = distinct case with a service decision taken among packets of at least two flows, or among equal stamps',
            'samples': samples, 'traces_validated_against_impl': len(cases) - len(dis), 'action_lines_replayed': lines,
            'operation_histogram': dict(sorted(hist.items()))}
